@@ -375,3 +375,58 @@ theorem interp_reproduces {F : Type} [Field F] {n : Nat} (K : Matrix (Fin n) (Fi
   simp only [Matrix.mulVec, dotProduct]; ring
 
 end Darsia.Sig
+
+namespace Darsia.Sig
+
+/-! ### nearest-neighbour resize of label maps -/
+
+theorem nearIdx_lt {n : Nat} (N x : Nat) (hn : 0 < n) : nearIdx n N x < n := by
+  unfold nearIdx; omega
+
+theorem nearIdx_id {n x : Nat} (hx : x < n) : nearIdx n n x = x := by
+  unfold nearIdx
+  rw [Nat.mul_div_cancel x (by omega : 0 < n)]
+  omega
+
+theorem nearIdx_mono (n N : Nat) {x y : Nat} (h : x ≤ y) : nearIdx n N x ≤ nearIdx n N y := by
+  unfold nearIdx
+  have : x * n / N ≤ y * n / N := Nat.div_le_div_right (Nat.mul_le_mul_right n h)
+  omega
+
+theorem listGetD_mem {α} (l : List α) (i : Nat) (d : α) (h : i < l.length) : listGetD l i d ∈ l := by
+  simp [listGetD, List.getElem?_eq_getElem h]
+
+/-- shape of the resized map -/
+theorem resizeNearest_shape (src : List (List Nat)) (H W : Nat) :
+    (resizeNearest src H W).length = H ∧ ∀ row ∈ resizeNearest src H W, row.length = W := by
+  constructor
+  · simp [resizeNearest]
+  · intro row hr
+    simp only [resizeNearest, List.mem_map, List.mem_range] at hr
+    obtain ⟨i, _, rfl⟩ := hr
+    simp
+
+/-- no new labels: every entry of the resized map is an entry of the source (non-empty rectangular source) -/
+theorem resizeNearest_subset (src : List (List Nat)) (w H W : Nat) (hh : 0 < src.length) (hw : 0 < w)
+    (hrect : ∀ row ∈ src, row.length = w) :
+    ∀ row ∈ resizeNearest src H W, ∀ v ∈ row, ∃ srow ∈ src, v ∈ srow := by
+  intro row hr v hv
+  simp only [resizeNearest, List.mem_map, List.mem_range] at hr
+  obtain ⟨i, _, rfl⟩ := hr
+  simp only [List.mem_map, List.mem_range] at hv
+  obtain ⟨j, _, rfl⟩ := hv
+  have hrow := listGetD_mem src (nearIdx src.length H i) [] (nearIdx_lt H i hh)
+  refine ⟨_, hrow, ?_⟩
+  apply listGetD_mem
+  rw [hrect _ hrow]
+  exact nearIdx_lt W j hw
+
+/-! ### the wrapper with linear sub-models is the label-wise linear model -/
+
+theorem wrap_linear_eq_het (L : Nat) (s o : List Rat) (p : Pixel) (hs : p.label < s.length) (ho : p.label < o.length) :
+    wrapApplyPix (List.zipWith M.linear s o) p = (M.het L s o).applyPix p := by
+  have : (List.zipWith M.linear s o)[p.label]? = some (M.linear (listGetD s p.label 0) (listGetD o p.label 0)) := by
+    simp [List.getElem?_zipWith, listGetD, List.getElem?_eq_getElem hs, List.getElem?_eq_getElem ho]
+  simp [wrapApplyPix, this, M.applyPix]
+
+end Darsia.Sig
